@@ -72,6 +72,9 @@ def states(tier, seed):
     lad = lad[:: max(1, len(lad) // (6 if tier == "quick" else 24))]
     for ss, alpha in itertools.product(lad, [5.0, 12.0] if tier == "quick" else [0.0, 5.0, 12.0, -4.0]):
         st.append(dict(part="ladder", surfs=ss, alpha=alpha, fam=fam))
+    # ground effect inside the aerostructural point: far from the ground the coupled solution tends to the free-air one
+    for model, side, alpha in itertools.product(["tube", "wingbox"], ["left", "right"], [3.0, 8.0]):
+        st.append(dict(part="asfar", model=model, side=side, alpha=alpha, fam=fam))
     # rejection: ground effect without symmetry
     for ns in (1, 2, 3):
         for pos in range(ns):
@@ -98,6 +101,35 @@ def aero(meshes, alpha, ground=False, h=None, v=50.0, rho=1.1):
 
 def run_state(s):
     return globals()["part_" + s["part"]](s)
+
+
+def part_asfar(s):
+    m = gen.make_mesh("swept", 2, 3, s["side"], s["fam"], span=10.0, chord=1.6)
+    res = []
+    for h in (None, 20.0, 2.0e2, 2.0e3, 2.0e5):
+        kw = dict(struct_weight_relief=True, with_viscous=True)
+        if h is not None:
+            kw["groundplane"] = True
+        surf = builders.struct_surface("wing", m, True, s["model"], **kw)
+        fl = dict(Mach_number=0.5, W0=2.0e3, v=100.0, rho=0.9, alpha=s["alpha"], speed_of_sound=200.0, R=2.0e6, load_factor=1.3)
+        if h is not None:
+            fl["height_agl"] = h
+        p = builders.build_aerostruct([surf], fl)
+        builders.tighten(p, nl="default", lin="default")
+        p.run_model()
+        A = "AS_point_0."
+        res.append(np.concatenate([p[A + "CL"], p[A + "CD"], p[A + "fuelburn"] / 1e3, p[A + "coupled.wing.disp"].ravel() * 10, p[A + "wing_perf.failure"].ravel()]))
+    viol, val = [], 0
+    free = res[0]
+    d = [np.abs(r - free).max() / max(np.abs(free).max(), 1e-300) for r in res[1:]]
+    for k in range(1, len(d)):
+        val += 1
+        if not d[k] <= d[k - 1] + 1e-9:
+            viol.append(dict(sig=dict(oracle="aerostructural_height_ladder_monotone", model=s["model"]), msg="difference to the free-air aerostructural solution grows with height: %s" % np.array2string(np.array(d), precision=3), measure=float(d[k])))
+    val += 1
+    if not d[-1] <= 1e-7:
+        viol.append(dict(sig=dict(oracle="aerostructural_far_field_limit", model=s["model"]), msg="at h = 2e5 m the ground-effect aerostructural solution still differs from free air by %.2e" % d[-1], measure=float(d[-1])))
+    return dict(viol=viol, nontrivial=bool(d[0] > 1e-6), digest=digest_arrays(*res), transitions=5, validated=val)
 
 
 def part_image(s):
